@@ -8,7 +8,7 @@ class EvFail(Exception):
     pass
 
 
-def run_script(sc):
+def run_script(sc, embedded=False):
     import usim
     from usim.py import Environment, Interrupt
     env = Environment()
@@ -86,9 +86,22 @@ def run_script(sc):
     for i, steps in enumerate(sc['procs']):
         procs[i + 1] = env.process(proc(i + 1, steps))
     until = sc['until']
-    waiters1 = any(st[0] == 'wait' and st[1] == 1 or st[0] == 'any' and st[2] == 1 for steps in sc['procs'] for st in steps)
+
+    async def native_waiter():
+        # a native usim activity that waits for SimPy event 1 (embedded mode)
+        trace.append({'e': 'y', 'p': 9, 'i': 1, 'k': ['wait', 1], 't': now()})
+        try:
+            got = await events[1]
+            trace.append({'e': 'res', 'p': 9, 'i': 1, 'how': 'ok', 'v': val(got), 't': now()})
+        except EvFail:
+            trace.append({'e': 'res', 'p': 9, 'i': 1, 'how': 'exc', 'v': [], 't': now()})
+    waiters1 = embedded or any(st[0] == 'wait' and st[1] == 1 or st[0] == 'any' and st[2] == 1 for steps in sc['procs'] for st in steps)
     try:
-        if until == 0:
+        if embedded:
+            # the environment runs inside a native simulation next to a native activity
+            usim.run(env.until(None if until == 0 else until), native_waiter())
+            out = None
+        elif until == 0:
             out = env.run()
         elif until < 10:
             out = env.run(until=until)
